@@ -673,8 +673,8 @@ fn parse_json_filter(input: &[u8], output: &mut [u8]) -> Result<(usize, usize), 
     let mut found_tags: u64 = 0;
     let letter_to_tag_bit = |letter: u8| -> Option<u64> {
         match letter {
-            65..=90 => Some(letter as u64 - 65),
-            97..=122 => Some(letter as u64 - 97 + 26),
+            65..=90 => Some(1_u64 << (letter - 65)),
+            97..=122 => Some(1_u64 << (letter - 97 + 26)),
             _ => None,
         }
     };
@@ -703,11 +703,12 @@ fn parse_json_filter(input: &[u8], output: &mut [u8]) -> Result<(usize, usize), 
     let mut start_ids: Option<usize> = None;
     let mut start_authors: Option<usize> = None;
     let mut start_kinds: Option<usize> = None;
-    // Allowing up to 32 tag filter fields (plenty!)
+    // Allowing up to 52 tag filter fields (one per letter A-Z, a-z; duplicates
+    // are rejected, so there cannot be more)
     // (we are not differentiating letters yet, just collecting offsets)
     // (we make the array to avoid allocation)
     let mut num_tag_fields = 0;
-    let mut start_tags: [usize; 32] = [usize::MAX; 32];
+    let mut start_tags: [usize; 52] = [usize::MAX; 52];
 
     eat_whitespace(input, &mut inpos);
     verify_char(input, b'{', &mut inpos)?;
@@ -828,12 +829,7 @@ fn parse_json_filter(input: &[u8], output: &mut [u8]) -> Result<(usize, usize), 
         {
             inpos += 1; // pass the hash
 
-            // Mark this position (on the letter itself)
-            start_tags[num_tag_fields] = inpos;
-            num_tag_fields += 1;
-
             let letter = input[inpos];
-            inpos += 2; // pass the letter and quote
 
             // Remember we found this tag in the `found_tags` bitfield
             if let Some(bit) = letter_to_tag_bit(letter) {
@@ -842,6 +838,12 @@ fn parse_json_filter(input: &[u8], output: &mut [u8]) -> Result<(usize, usize), 
                 }
                 found_tags |= bit;
             }
+
+            // Mark this position (on the letter itself)
+            start_tags[num_tag_fields] = inpos;
+            num_tag_fields += 1;
+
+            inpos += 2; // pass the letter and quote
 
             // Burn the rest
             eat_colon_with_whitespace(input, &mut inpos)?;
